@@ -7,6 +7,7 @@ models.distances / models.fluxes cell by cell, then FitInfo of every model.
 """
 import math
 import os
+import zlib
 import random
 import shutil
 import tempfile
@@ -72,7 +73,7 @@ def build_world(root, cube, K, ulo, uhi, nd, c, fmt, memmap, r, distance_unit='k
         cf.write(os.path.join(d, 'convolved', 'f%d.fits' % j))
     if fmt == 'cube':
         pw.cube_object(names, [1.0, 2.0], [100.0, 200.0], lambda m, a, w: 1.0 + m + a + w, lambda m, a, w: 0.1, 'desc').write(os.path.join(d, 'flux.fits'))
-    law = fw.make_extinction(K, wavs)
+    law = fw.make_extinction(K, wavs, variety=zlib.crc32(repr((K, list(names), fmt, ulo, uhi)).encode()))
     ft = fw.make_fitter(d, ['f%d' % j for j in range(nbands)], law, ulo, uhi, distance_range=[dist[0], dist[-1]], apertures=theta, use_memmap=memmap,
                         distance_unit=distance_unit, remove_resolved=remove_resolved)
     return d, ft, dist, names
